@@ -197,7 +197,7 @@ class Engine:
                 if n.get("k") in ("call", "construct"):
                     g = fb.resolve_call(n)
                     if g is not None and g.key in self.reach:
-                        self.callers.setdefault(g.key, []).append((f, n))
+                        self.callers.setdefault(g.key, []).append((f, facts.effective_call(n)))
         self.validators = {}
         self.req = {}      # fn.key -> {ptr param decl: need bytes}
         self.req_ok = {}   # fn.key -> bool (all call sites discharged)
@@ -640,6 +640,7 @@ def rule_pairs(eng, ctx):
             g = fb.resolve_call(c)
             if g is None or g.key not in eng.reach:
                 continue
+            c = facts.effective_call(c)
             args = c.get("args", [])
             for i, prm in enumerate(g.params):
                 if prm["t"].get("k") != "ptr" or i >= len(args):
